@@ -139,7 +139,7 @@ func checkC11(tier, replay string) int {
 		for r := 0; r < reps; r++ {
 			for _, unpriv := range []bool{false, true} {
 				for _, nnp := range []bool{true, false} {
-					for _, fl := range []uint32{0, 1, 2, 3} {
+					for _, fl := range []uint32{0, 1, 2, 3, 4, 5} { // 4 = SPEC_ALLOW: a flag the kernel accepts and the library has no name for
 						for _, lm := range []bool{false, true} {
 							cfgs = append(cfgs, c11Config{unpriv, nnpScript{NNP: nnp, Flags: fl, Choice: "stay", LoaderMain: lm}})
 							if !unpriv {
